@@ -168,7 +168,77 @@ def utxRun (t : Tx) (ops : List String) : String :=
     (h, o :: acc.2)) ((-1 : Int), [])
   "|".intercalate r.2.reverse
 
-def handle : List String → String
+/-! ### helper APIs of MsgTx / MsgBlock, v2 framing, value semantics of results -/
+
+def runDecQ {α : Type} [Dump α] (b : Bytes) (c : Codec α) (_ : Nat) (extra : α → String) : String :=
+  match c.dec b with
+  | .error _ => "err"
+  | .ok (a, r) => s!"ok {dump a} {listToHexTok (c.enc a)} {r.length}" ++ extra a
+
+/-- `PkScriptLocs`: start of every pkScript inside `Serialize()` -/
+def pkScriptLocs (t : Tx) : List Nat :=
+  let ins := t.2.1
+  let outs := t.2.2.1
+  let n0 := 4 + (if hasWitness t.2 then 2 else 0) + varintSize ins.length + sizeList txIn ins + varintSize outs.length
+  (outs.foldl (fun (acc : Nat × List Nat) o =>
+    let at_ := acc.1 + 8 + varintSize o.2.length
+    (at_ + o.2.length, at_ :: acc.2)) (n0, [])).2.reverse
+
+def natList (l : List Nat) : String := if l.isEmpty then "-" else ",".intercalate (l.map toString)
+
+def txApi (t : Tx) : String :=
+  let locs := natList (pkScriptLocs t)
+  s!"ok nw={listToHex ((tx .base).enc t)} ss={(tx .base).size t} dnw=ok locs={locs} cplocs={locs} copy=deep " ++
+  s!"txid={listToHex (txid t).reverse} alias=none " ++
+  s!"sz={sizeList txIn t.2.1}/{sizeList txOut t.2.2.1}/{sizeList witness t.2.2.2.1}"
+
+def blkApi (b : Block) : String :=
+  let nw := (block .base).enc b
+  s!"ok nwlen={nw.length} nwh={listToHex (BV.Sha256.hash2List nw)} ss={(block .base).size b} dnw=ok " ++
+  s!"locs={";".intercalate (txLocs b)} hash={listToHex (blockHash b.1)} " ++
+  s!"txh={String.join (b.2.map (fun t => listToHex (txid t)))} copy=deep " ++
+  s!"clear={listToHex (blockHeader.enc b.1 ++ [0])} add=same"
+
+def handle0 : List String → String
+  | ["txapi", h] => match hexToList? h with
+    | some bs => match decodeAll (tx .witness) bs with
+      | .error _ => "err"
+      | .ok t => txApi t
+    | none => "bad-op"
+  | ["blkapi", h] => match hexToList? h with
+    | some bs => match decodeAll (block .witness) bs with
+      | .error _ => "err"
+      | .ok b => blkApi b
+    | none => "bad-op"
+  | ["multi", _, subs] =>
+    "#".intercalate ((subs.splitOn "|").map (fun sub =>
+      match sub.splitOn "/" with
+      | [kind, pver, e, h] =>
+        match pver.toNat?, parseEnc? e, hexToList? h with
+        | some pver, some e, some b => (withKind kind pver e (fun c mpl extra => runDecQ b c mpl extra)).getD "bad-op"
+        | _, _, _ => "bad-op"
+      | _ => "bad-op"))
+  | ["v2", pver, e, h] =>
+    match pver.toNat?, parseEnc? e, hexToList? h with
+    | some pver, some e, some b =>
+      match b with
+      | [] => "err"
+      | x :: _ =>
+        let sel : Option (String × Bytes) :=
+          if x = 0 then
+            if lenLt b 13 then none else
+            let cmd := trimZeros ((b.drop 1).take 12)
+            if isPlainAscii cmd then some (bytesToString cmd, b.take 13) else none
+          else (v2CmdOf x.toNat).map (fun c => (c, [x]))
+        match sel with
+        | none => "err"
+        | some (kind, pre) =>
+          if !isCommand kind then "err" else
+          (withKind kind pver e (fun c mpl _ =>
+            match readV2 c mpl pre b with
+            | .error _ => "err"
+            | .ok a => s!"ok {kind} {dump a} {listToHex (writeV2 c kind.toUTF8.toList (v2IdOf kind) a)} canon=1")).getD "err"
+    | _, _, _ => "bad-op"
   | ["blk", _, h, ops] => match hexToList? h with
     | some bs => match decodeAll (block .witness) bs with
       | .error _ => "err"
@@ -215,5 +285,10 @@ def handle : List String → String
       | .ok t => s!"ok{blockExtra t}"
     | none => "bad-op"
   | _ => "bad-op"
+
+/-- `api`: every exported Read*/Write* entry point of message.go answers like the primary one -/
+def handle : List String → String
+  | ["api", pver, net, h] => handle0 ["msg", pver, net, "b", h] ++ " api=agree"
+  | l => handle0 l
 
 end BV.C08.Driver
